@@ -39,3 +39,8 @@ for seed, tiers in ((1, ("quick", "thorough")), (2, ("quick", "thorough")), (3, 
         if n == "iterators": h.update(bounds="seed topology S%d; every depth -2..7 (enumerated); set and index symbolic" % seed)
         HARNESSES.append(h)
 OUTSIDE = ["topologies other than the seeds S1-S3, S8, S12", "multi-word cpusets", "I/O-object branches of hwloc_get_obj_with_same_locality", "subtype/nameprefix filters"]
+
+_cl = [h for h in HARNESSES if h["name"] == "closest_s1"][0]
+_h = dict(_cl); _h.update(name="closest_numa_s1", entry="h_closest_numa", encoded=["hwloc_get_closest_objs (source in a special level: negative depth)"], tiers={"quick": {}, "thorough": {}},
+          bounds="seed S1; the source is either NUMA node (enumerated), max 0..3 symbolic: the other NUMA node is returned, no access outside the level arrays")
+HARNESSES.append(_h)
